@@ -313,9 +313,10 @@ pub fn materialise(root: &Path, w: &World, program: &[u8]) -> std::io::Result<La
             }
             argv1.extend_from_slice(b"a.sd");
         }
-        13 | 14 => {
-            // the script is what stdin is open on (`seed /dev/stdin < script`)
-            argv1.extend_from_slice(if w.spelling == 13 { b"/dev/stdin".as_slice() } else { b"/proc/self/fd/0".as_slice() });
+        13 | 14 | 15 => {
+            // the script is what stdin is open on (`seed /dev/stdin < script`); 15: and the
+            // file has been unlinked since, so the descriptor is the only way to reach it
+            argv1.extend_from_slice(if w.spelling == 14 { b"/proc/self/fd/0".as_slice() } else { b"/dev/stdin".as_slice() });
         }
         12 => {
             let ln = cwd.join("lnx");
@@ -492,8 +493,14 @@ fn run_inner(cfg: &Config, worker: usize, program: &[u8], w: &World, plan: &Plan
 
     // stdin
     let mut keep: Vec<OwnedFd> = vec![];
-    let stdin_fd: Option<OwnedFd> = match if w.spelling == 13 || w.spelling == 14 { 100 } else { w.stdin } {
-        100 => Some(OwnedFd::from(fs::File::open(&lay.script)?)),
+    let stdin_fd: Option<OwnedFd> = match if (13..=15).contains(&w.spelling) { 100 } else { w.stdin } {
+        100 => {
+            let f = fs::File::open(&lay.script)?;
+            if w.spelling == 15 {
+                fs::remove_file(&lay.script)?;
+            }
+            Some(OwnedFd::from(f))
+        }
         1 => None,
         2 => {
             let (r, wr) = make_pipe()?;
